@@ -9,7 +9,7 @@ G_UNITS = {
                "HelperAttributeForCompareOp::push_bounds_to", "HelperAttributesForCompareOp::push_bounds", "DeriveEntry::push_bounds_to",
                "DeriveEntry::push_bounds_to_with", "HelperAttributes::push_bounds_to", "HelperAttributes::push_bounds_to_without_helper",
                "HelperAttributes::push_bounds_to_raw", "FieldEntry::push_bounds_to", "CompareOp::is_effects_to"],
-    "cmp_bodies": ["build_partial_eq_expr", "build_eq_expr", "build_partial_ord_expr", "build_ord_expr", "build_hash_expr"],
+    "cmp_bodies": ["build_partial_eq_body", "build_eq_body", "build_partial_ord_body", "build_ord_body", "build_hash_body", "build_compare_op", "build_partial_eq_expr", "build_eq_expr", "build_partial_ord_expr", "build_ord_expr", "build_hash_expr"],
     "builders": ["build_copy_for_struct", "build_copy_for_enum", "build_clone_for_struct", "build_clone_for_enum", "build_debug_expr",
                  "build_debug_for_struct", "build_debug_for_enum", "build_default_ctor_args"],
 }
@@ -51,12 +51,13 @@ def run(ctx):
     ctx.assumptions += [
         "layer G (proved for all assignments of bound(...) to all levels and every number of variants/fields): the whole resolution chain Bounds::from .. FieldEntry::push_bounds_to and the builders of Copy, Clone, Debug (struct+enum) and Default's field walk, against the reference walk of contracts/_boundspec.rs",
         "layer G assumptions: WhereClauseBuilder::new copies the declared where-clause (external, checked by layer B); GenericParamSet::contains_in_type == mentions (external visitor); HashMap::get as a partial map; structural Clone of syn types; R9: slice.iter().rev() yields the reversed literal",
-        "not under contract (bounded only): the comparison body builders' field-level interleaving of helper bounds with key/by selection, the operator builders (closures), build_default_for_enum/struct, Bound::parse and structmeta parsing",
+        "also proved (unit cmp_bodies): the five comparison body builders and build_compare_op incl. the field-level interleaving of helper bounds with key/by selection (closure contracts restated in the loop invariants), for structs and enums of any size",
+        "not under contract (bounded only): the operator builders (closures in a by-value loop), build_default_for_enum/struct, Bound::parse and structmeta parsing",
         "layer B: seeded random assignments through the real expander for every derivable trait (struct and enum), where-clauses compared as multisets with the reference of lib/boundfam.py",
     ]
     cov = {
         "obligations": g["obligations"], "discharged": g["discharged"],
-        "checker_cmd": "verus build/g/bounds.rs ; verus build/g/builders.rs (--output-json --time)",
+        "checker_cmd": "verus build/g/{bounds,builders,cmp_bodies}.rs (--output-json --time)",
         "trusted_base": ["Verus 0.2026.09.13 / Z3", "contracts/_prelude.rs + _types.rs stand-ins"],
         "functions_under_contract": g["functions_under_contract"], "g_units": g["units"], "assumption_scan": g["assumption_scan"], "solver_ms": g["smt_ms"],
         "bounded": {"evaluations": n, "with_type_or_variant_level_bounds": nontriv},
